@@ -138,6 +138,10 @@ fn stream(body: &str) -> Vec<Ev> {
 }
 
 pub fn check(html: &str, w: usize, cfg: &Cfg, cx: &mut Cx) {
+    let d = dom::parse(html.as_bytes());
+    check_parsed(html, &links(&d), d.has_elem("table"), w, cfg, cx)
+}
+fn check_parsed(html: &str, ls: &[Link], has_table: bool, w: usize, cfg: &Cfg, cx: &mut Cx) {
     let r = cx.render(html.as_bytes(), w, cfg);
     cx.state(1);
     let s = match &r {
@@ -152,9 +156,6 @@ pub fn check(html: &str, w: usize, cfg: &Cfg, cx: &mut Cx) {
         Dec::Plain => !cfg.has(|o| matches!(o, Opt::Footnotes(false))),
         _ => cfg.has(|o| matches!(o, Opt::Footnotes(true))),
     };
-    let d = dom::parse(html.as_bytes());
-    let ls = links(&d);
-    let has_table = d.has_elem("table");
     let fail = |cx: &mut Cx, class: &str, extra: Value| {
         cx.violation(class, || json!({"case": case_json(html.as_bytes(), w, cfg), "output": s, "detail": extra,
             "as_unit_test": format!("#[test] fn c08_replay() {{ let s = {}.string_from_read({html:?}.as_bytes(), {w}).unwrap(); /* {class} */ print!(\"{{s}}\"); }}", cfg.as_rust())}));
@@ -250,9 +251,12 @@ impl Scope for S {
         let h = html(&build_doc(code, k));
         let all: Vec<usize> = (8..=40).collect();
         let widths: &Vec<usize> = if k <= 2 { &all } else { &self.widths };
+        let d = dom::parse(h.as_bytes());
+        let ls = links(&d);
+        let has_table = d.has_elem("table");
         for &w in widths {
             for cfg in cfgs() {
-                check(&h, w, &cfg, cx);
+                check_parsed(&h, &ls, has_table, w, &cfg, cx);
             }
         }
     }
